@@ -1,9 +1,9 @@
 SPECIFICATION Spec
 CONSTANTS
-  MaxLines = 5
+  MaxLines = 3
   Modes = {"independent", "cumulative"}
-  MaxNext = 5
-  MaxSep = 1
+  MaxNext = 4
+  MaxSep = 2
   LineKinds = {"c", "m", "f"}
   Flags = {}
 INVARIANT Lossless
